@@ -50,7 +50,11 @@ def parse_args(args):
         return dict(path=path, mech=mech, hs="0", au="-", cred=cred, fstep=fstep, fkind="rawresp", credidx="0",
                     prefix=prefix, npay=npay, end=end, complete=0 <= prefix <= npay)
     path, mech, hs, au, cred, fstep, fkind, credidx = f
-    return dict(path=path, mech=mech, hs=hs, au=au, cred=cred, fstep=fstep, fkind=fkind, credidx=credidx)
+    a = dict(path=path, mech=mech, hs=hs, au=au, cred=cred, fstep=fstep, fkind=fkind, credidx=credidx)
+    if fkind.startswith("err:"):      # err:<code hex>:<null|empty|text|->
+        _, code, mode = fkind.split(":")
+        a.update(fkind="errcode", code=hexint(code), msg=mode)
+    return a
 
 
 ALLOC_SLACK = 1 << 20      # Transport path: TotalAlloc of the whole round trip <= 1 MiB + 4 x bytes put on the wire
@@ -90,6 +94,9 @@ def failing_step_expected(a, feats):
         return True
     if a["fkind"] == "junk" and "fault-reached" in feats and a["mech"] != "plain":
         return True
+    if a["fkind"] == "errcode":
+        # refusal is the error CODE alone, whatever the error_message (null, empty, text)
+        return a["code"] != 0 and "fault-reached" in feats
     if a["fkind"] == "rawresp":
         # anything but a complete response is a failing step; a complete one carries junk: PLAIN
         # ignores it, SCRAM rejects it
@@ -144,12 +151,16 @@ def violations_of(c):
         if not is_auth and not seen_v:
             if a["fkind"] in ("junk", "rawresp") and a["mech"] == "plain":
                 continue          # PLAIN ignores the payload of a success response (see ASSUMPTIONS)
-            out.append((f"request {t} written before the broker accepted the authentication", None))
+            out.append((f"request {t} written before the broker accepted the authentication"
+                        + (f" (the broker refused with error code {a['code']}, error_message {a['msg']})" if a["fkind"] == "errcode" else ""),
+                        "group:errcode-before-verdict" if a["fkind"] == "errcode" else None))
             break
     # 2. a failing step: error, connection closed, nothing more written
     if failing_step_expected(a, feats):
         if not r["E"] or not r["C"] or any(t.endswith("!") for t in toks):
-            out.append((f"a failing step did not end in an error with the connection closed (E={int(r['E'])} C={int(r['C'])}, journal {','.join(toks)})", None))
+            out.append((f"a failing step did not end in an error with the connection closed (E={int(r['E'])} C={int(r['C'])}, journal {','.join(toks)})"
+                        + (f": refusal with error code {a['code']}, error_message {a['msg']}" if a["fkind"] == "errcode" else ""),
+                        "group:errcode-not-failing" if a["fkind"] == "errcode" else None))
     # 3. framing follows the negotiated handshake version
     v = expected_hs(a)
     hs_toks = [t.rstrip("!") for t in toks if t.split(".")[0] == "11"]
@@ -168,6 +179,8 @@ def violations_of(c):
             if b.split(".")[0] == "24" and "?" not in b and v == 0 and not seen_v:
                 out.append(("framed SaslAuthenticate after a v0 handshake", None))
     # 4. honest broker: accepted exactly when the credentials are right
+    if a["fkind"] == "errcode" and a["code"] == 0 and a["cred"] == "right" and v is not None and (r["E"] or "V" not in toks):
+        out.append((f"a response with error code 0 (error_message {a['msg']}) was taken for a refusal", "group:errcode-zero-refused"))
     if a["fkind"] == "none" and v is not None:
         if a["cred"] == "right" and (r["E"] or "V" not in toks):
             out.append(("right credentials but the exchange did not complete", None))
@@ -257,7 +270,7 @@ def correspondence(ctx):
     for c in cases:
         fs = c["feats"].split(",")
         for f in fs:
-            if f.split("=")[0] in ("path", "mech", "hs", "cred", "fault", "fstep", "credcase", "err", "prefix", "end", "payload") or "=" not in f:
+            if f.split("=")[0] in ("path", "mech", "hs", "cred", "fault", "fstep", "credcase", "err", "prefix", "end", "payload", "code", "msg") or "=" not in f:
                 hist[f] = hist.get(f, 0) + 1
         if "product" in fs:
             n_product += 1
@@ -295,6 +308,9 @@ def correspondence(ctx):
                      "by VERIF_SEED) x mechanisms x versions x {right, wrong password} x paths. Each case: fresh in-memory connection, real client, journal of the fake "
                      "broker before/after its verdict, result of Dial/RoundTrip, whether the client had closed the connection on return; compared with the extracted model's "
                      "trace for the same script, and the property's predicates are evaluated on the implementation's own output. "
+                     "Refusals (tag 'side', fault=errcode): error code in {0, 58, 33, 34, 35, 1, -1, 128, 255, 32767, -32768} x error_message in {null, empty string, text} in the "
+                     "SaslAuthenticate response of every authentication step (handshake v1; responses encoded by hand because protocol.WriteResponse cannot emit an empty non-null "
+                     "string), and every code in the ApiVersions / SaslHandshake responses (no message field; handshake v0 and v1), x mechanisms x paths; the model decides on the code alone. "
                      "Raw response read (op 'rawread', tag 'side'): over a v0 handshake, at each raw step (PLAIN step 2, SCRAM-SHA-256 steps 2 and 3), the broker answers with a "
                      "length prefix in {0, 1, n, n+1, 2^16, 2^24, 2^30, 2^31-1, -1, -2^31} followed by n in 0..3 payload bytes, then closes or stays silent until the "
                      "connection's read deadline (armed by the harness, 120 ms), through Dialer.DialContext (Conn path) and Transport.RoundTrip (protocol/saslauthenticate "
